@@ -49,6 +49,18 @@ CHECKS.update({
         note=COMPUTE_NOTE,
         technique="Verus (Z3) on the verbatim body: error postconditions + panic/overflow freedom of the body and of the nix callees",
         design_ref="DESIGN.md section 4, C14"),
+    "C01": dict(
+        category="proof", engine="verus-extracted",
+        text="Conditional composition proof. A Verus lemma shows: if chrony's report was valid, the oscillator obeyed the configured rate, the published bound covers |offset|+dispersion+delay/2 "
+             "(C07), the record carries that bound with the as-of reading taken before the query and is frozen across non-synchronised outcomes (C08/C12), no status other than Unknown is published "
+             "before a measurement exists (C09), the drift rate is published exactly (C19), and the client's interval is symmetric with half-width >= bound + floor(rho*elapsed/10^9) - 1 (C05) with the "
+             "realtime clock read before the monotonic one (C12), then true time at the instant the system clock was read lies within [earliest - 3 ns, latest + 3 ns]. The check discharges that lemma "
+             "AND re-runs the component obligations on the real code, reporting the first failing component obligation as the C01 violation with its replay. The property holds for the real code exactly as "
+             "far as those component contracts are discharged; snapshot atomicity under concurrent update (C02) is ASSUMED, not shown. Found and fixed: F-C07, F-C09, F-C19 each broke containment.",
+        note="Assumed: C02; validity of chrony's report; configured drift rate; second-order clock-rate term; integer-nanosecond modelling (3 ns margin); float axioms A1/A2 and rounding model A3/A4; "
+             "hand restatement of component postconditions as lemma hypotheses.",
+        technique="Verus composition lemma over the component contracts + the component Verus/Kani obligations on the real code",
+        design_ref="DESIGN.md section 4, C01"),
     "C03": dict(
         category="proof", engine="kani-woven",
         text="At call granularity: ShmReader::snapshot is proved (Kani, real code, all versions/generations/cached generations/records/caches) to return the segment's record and cache its "
